@@ -6,6 +6,8 @@
                                <ms> decimal, possibly 0 or negative, n<ns>, or huge); m = g (sent), a (address family error,
                                nothing on the wire), w (Conn.WriteTo failed)
      s                         snapshot of the table size
+     @<k>                      the following steps are made on session k of the process (created on first use)
+     close.<k> / closed.<k>    Session.Close of session k was called / has returned (model: CloseSession k / nothing)
      q4.<p>.<ms> / q6.<p>.<ms>  call p registered its waiter and is inside its send;  z.<p>.<T|F>  that send returned
      x.<n>                     n address-error calls one after the other (compressed: BulkFail n)
      r.<hex>                   frame handed to Session.Parse
@@ -33,9 +35,16 @@ Definition tmo_of_tok (w : string) : option Z :=
 
 Definition parse_tok (w : string) : option tok :=
   match split "."%char w with
-  | [k] => if String.eqb k "s" then Some TSnap else None
+  | [k] =>
+      if String.eqb k "s" then Some TSnap
+      else match k with
+           | String "@"%char r => option_map TUse (nat_of_dec r)
+           | _ => None
+           end
   | [k; a] =>
       if String.eqb k "r" then option_map TFrame (bytes_of_tok a)
+      else if String.eqb k "close" then option_map TClose (nat_of_dec a)
+      else if String.eqb k "closed" then option_map TUse (nat_of_dec a)
       else if String.eqb k "x" then
         match N_of_dec a with Some n => if n <=? 65536 then Some (TBulk n) else None | None => None end
       else if String.eqb k "w" then option_map TWait (nat_of_dec a)
